@@ -225,6 +225,11 @@ func driverEll(c *Ctx) {
 		if g.pick(6) == 0 {
 			counts["...[99]"] = 2 // an ellipsis the template does not have
 		}
+		if i%16 == 3 {
+			// many copies of an unfilled inner ellipsis: the remaining ellipses get two-digit numbers
+			t = &GItem{F: "L", Kids: []*GItem{{F: "L", Kids: []*GItem{{F: "U1", Vals: []interface{}{"x"}}, {F: "", Var: "...[0]"}}}, {F: "", Var: "...[1]"}}}
+			counts = map[string]int{"...[1]": 8 + g.pick(6)}
+		}
 		c.emit(i, ellEvent(g, t.Build(), counts))
 		c.count("ell.cases")
 	}
